@@ -36,7 +36,10 @@ Fixpoint to_pcomp (fuel : nat) (x : sx) : pcomp Q2 :=
   end.
 Definition to_tree (x : sx) : pcomp Q2 := to_pcomp 40 x.
 Definition to_jones (x : sx) : jones Q2 := (to_q2 (nthx 0 x), to_q2 (nthx 1 x)).
-Definition to_pinput (x : sx) : pinput Q2 := map (fun md => map to_jones (to_list md)) (to_list x).
+(* a photon is [eh, ev], or [] when it has no P annotation *)
+Definition to_photon (x : sx) : photon Q2 := match x with L [] => None | _ => Some (to_jones x) end.
+Definition to_ainput (x : sx) : ainput Q2 := map (fun md => map to_photon (to_list md)) (to_list x).
+Definition to_pinput (x : sx) : pinput Q2 := resolve_photons (to_ainput x).
 
 (* tree -> [well-formed?, status (0 matrix, 1 numpy raises), dim, matrix] *)
 (* fx = true: the code as it is now; fx = false: /repo before the fix commits e38f1486, 53c82d36, 19d38de0 (historical) *)
